@@ -1,7 +1,989 @@
-//! C19: not implemented yet.
-use crate::util::Args;
+//! C19: arithmetic e-graph rewrites (patronus-egraphs).  One case per line, `(kind K)` selects:
+//!
+//! (case ID (kind table) (rules (rule "name" LHS RHS) ...))
+//!     the pattern ASTs of `create_rewrites()` ("generated facts")
+//! (case ID (kind cond) (rule "name") (assign ("?wo" 3) ...) (impl true|false|(panic)))
+//!     `ArithRewrite::eval_condition` on one width/sign assignment
+//! (case ID (kind inst) (rule "name") (assign ..) (lhs ARITH) (rhs ARITH) (cond ..)
+//!          (impl_lhs EXPR|(panic)) (impl_rhs EXPR|(panic)) (syms ("a" 3) ..) (exhaustive 0|1)
+//!          (vals (va vb .. l r) ...))
+//!     both patterns instantiated (as tools/egraphs-cond-synth/src/samples.rs does), lowered with the
+//!     real `from_arith`, evaluated with the real `eval_expr` on operand values
+//! (case ID (kind roundtrip) (expr E) (impl_arith ARITH|(panic)) (impl_back EXPR|(panic)) (same_ref 0|1)
+//!          (syms ("x" 3) ..) (vals (v1 .. l r) ...))
+//!     `to_arith` / `from_arith` on a generated expression; l = value of E, r = value of the result
+//! (case ID (kind lower) (arith ARITH) (impl EXPR|(panic)))
+//!     `from_arith` on a hand-made or randomly damaged term (model fidelity outside the rule shapes)
+//!
+//! ARITH: (OP c0 .. c6) with OP in + - * << >> >>>, (max+1 a b), (wlsh a b), (W n), (sign), (unsign),
+//!        (const n), (symbol "x"), (var "?x").
+use crate::dump::*;
+use crate::exprgen::lit_value;
+use crate::rng::Rng;
+use crate::sexp::{Sexp, build_expr, read_cases};
+use crate::util::*;
+use baa::{BitVecOps, BitVecValue, Value};
+use egg::{ENodeOrVar, Id, Language, PatternAst, RecExpr, Var};
+use patronus::expr::*;
+use patronus_egraphs::*;
+use std::collections::{BTreeMap, BTreeSet, HashSet};
+use std::io::Write;
+use std::str::FromStr;
 
-pub fn run(_args: &Args) {
-    eprintln!("C19: harness module not implemented yet");
-    std::process::exit(2);
+// ------------------------------------------------------------------------------------------ dumping
+
+fn arith_head(n: &Arith, out: &mut String) -> bool {
+    // returns true when the node has children (which the caller prints)
+    match n {
+        Arith::Add(_) => out.push_str("(+"),
+        Arith::Sub(_) => out.push_str("(-"),
+        Arith::Mul(_) => out.push_str("(*"),
+        Arith::LeftShift(_) => out.push_str("(<<"),
+        Arith::RightShift(_) => out.push_str("(>>"),
+        Arith::ArithmeticRightShift(_) => out.push_str("(>>>"),
+        Arith::WidthMaxPlus1(_) => out.push_str("(max+1"),
+        Arith::WidthLeftShift(_) => out.push_str("(wlsh"),
+        Arith::Width(w) => {
+            let w: WidthInt = (*w).into();
+            out.push_str(&format!("(W {w})"));
+            return false;
+        }
+        Arith::Sign(Sign::Signed) => {
+            out.push_str("(sign)");
+            return false;
+        }
+        Arith::Sign(Sign::Unsigned) => {
+            out.push_str("(unsign)");
+            return false;
+        }
+        Arith::Const(v) => {
+            out.push_str(&format!("(const {v})"));
+            return false;
+        }
+        Arith::Symbol(s) => {
+            out.push_str(&format!("(symbol {})", quote(s)));
+            return false;
+        }
+    }
+    true
+}
+
+fn dump_arith_rec(nodes: &[Arith], i: usize, out: &mut String) {
+    let n = &nodes[i];
+    if arith_head(n, out) {
+        for c in n.children() {
+            out.push(' ');
+            dump_arith_rec(nodes, usize::from(*c), out);
+        }
+        out.push(')');
+    }
+}
+
+pub fn dump_arith(e: &RecExpr<Arith>) -> String {
+    let nodes = e.as_ref();
+    let mut s = String::new();
+    dump_arith_rec(nodes, nodes.len() - 1, &mut s);
+    s
+}
+
+fn dump_pat_rec(nodes: &[ENodeOrVar<Arith>], i: usize, out: &mut String) {
+    match &nodes[i] {
+        ENodeOrVar::Var(v) => out.push_str(&format!("(var {})", quote(&v.to_string()))),
+        ENodeOrVar::ENode(n) => {
+            if arith_head(n, out) {
+                for c in n.children() {
+                    out.push(' ');
+                    dump_pat_rec(nodes, usize::from(*c), out);
+                }
+                out.push(')');
+            }
+        }
+    }
+}
+
+fn dump_pat(p: &PatternAst<Arith>) -> String {
+    let nodes = p.as_ref();
+    let mut s = String::new();
+    dump_pat_rec(nodes, nodes.len() - 1, &mut s);
+    s
+}
+
+/// rebuild a ground term from its dump (replay)
+fn build_arith(x: &Sexp, out: &mut RecExpr<Arith>) -> Id {
+    let l = x.list();
+    let tag = l[0].atom();
+    let mut kids = |out: &mut RecExpr<Arith>| -> Vec<Id> { l[1..].iter().map(|c| build_arith(c, out)).collect() };
+    let node = match tag {
+        "W" => Arith::from(l[1].num() as WidthInt),
+        "sign" => Arith::Sign(Sign::Signed),
+        "unsign" => Arith::Sign(Sign::Unsigned),
+        "const" => Arith::Const(l[1].num()),
+        "symbol" => Arith::Symbol(l[1].atom().to_string()),
+        "max+1" => {
+            let k = kids(out);
+            Arith::WidthMaxPlus1([k[0], k[1]])
+        }
+        "wlsh" => {
+            let k = kids(out);
+            Arith::WidthLeftShift([k[0], k[1]])
+        }
+        op => {
+            let k = kids(out);
+            let a: [Id; 7] = [k[0], k[1], k[2], k[3], k[4], k[5], k[6]];
+            match op {
+                "+" => Arith::Add(a),
+                "-" => Arith::Sub(a),
+                "*" => Arith::Mul(a),
+                "<<" => Arith::LeftShift(a),
+                ">>" => Arith::RightShift(a),
+                ">>>" => Arith::ArithmeticRightShift(a),
+                other => panic!("unknown arith tag {other}"),
+            }
+        }
+    };
+    out.add(node)
+}
+
+// ------------------------------------------------------------------------------------------ rules
+
+struct RuleVars {
+    widths: Vec<String>,
+    signs: Vec<String>,
+    others: Vec<String>,
+}
+
+fn rule_vars(r: &ArithRewrite) -> RuleVars {
+    let (l, rr) = r.patterns();
+    let mut all = BTreeSet::new();
+    for p in [l, rr] {
+        for n in p.as_ref() {
+            if let ENodeOrVar::Var(v) = n {
+                all.insert(v.to_string());
+            }
+        }
+    }
+    let mut rv = RuleVars { widths: vec![], signs: vec![], others: vec![] };
+    for v in all {
+        match v.chars().nth(1) {
+            Some('w') => rv.widths.push(v),
+            Some('s') => rv.signs.push(v),
+            _ => rv.others.push(v),
+        }
+    }
+    rv
+}
+
+type Asg = Vec<(String, WidthInt)>;
+
+fn asg_txt(a: &Asg) -> String {
+    a.iter().map(|(k, v)| format!(" ({} {})", quote(k), v)).collect()
+}
+
+fn parse_asg(items: &[Sexp]) -> Asg {
+    items.iter().map(|p| (p.list()[0].atom().to_string(), p.list()[1].num() as WidthInt)).collect()
+}
+
+fn egg_asg(a: &Asg) -> Vec<(Var, WidthInt)> {
+    a.iter().map(|(k, v)| (Var::from_str(k).unwrap(), *v)).collect()
+}
+
+/// samples.rs: gen_substitution + instantiate_pattern
+fn instantiate(p: &PatternAst<Arith>, a: &Asg) -> RecExpr<Arith> {
+    let m: BTreeMap<&str, WidthInt> = a.iter().map(|(k, v)| (k.as_str(), *v)).collect();
+    let mut out = RecExpr::default();
+    for el in p.as_ref() {
+        let node = match el {
+            ENodeOrVar::ENode(n) => n.clone(),
+            ENodeOrVar::Var(v) => {
+                let name = v.to_string();
+                match name.chars().nth(1) {
+                    Some('w') => Arith::from(m[name.as_str()]),
+                    Some('s') => match m[name.as_str()] {
+                        0 => Arith::Sign(Sign::Unsigned),
+                        _ => Arith::Sign(Sign::Signed),
+                    },
+                    _ => Arith::Symbol(name.chars().skip(1).collect()),
+                }
+            }
+        };
+        out.add(node);
+    }
+    out
+}
+
+fn cond_txt(r: &ArithRewrite, a: &Asg) -> String {
+    let ea = egg_asg(a);
+    match guarded(|| r.eval_condition(&ea)) {
+        Ok(true) => "true".into(),
+        Ok(false) => "false".into(),
+        Err(_) => "(panic)".into(),
+    }
+}
+
+fn table_case(id: &str) -> String {
+    let mut s = format!("(case {id} (kind table) (rules");
+    for r in create_rewrites() {
+        let (l, rr) = r.patterns();
+        s.push_str(&format!(" (rule {} {} {})", quote(r.name()), dump_pat(l), dump_pat(rr)));
+    }
+    s.push_str("))");
+    s
+}
+
+fn cond_case(id: &str, r: &ArithRewrite, a: &Asg) -> String {
+    format!("(case {id} (kind cond) (rule {}) (assign{}) (impl {}))", quote(r.name()), asg_txt(a), cond_txt(r, a))
+}
+
+fn collect_syms(ctx: &Context, e: ExprRef, acc: &mut BTreeMap<(String, WidthInt), ExprRef>) {
+    for s in crate::exprgen::collect_symbols(ctx, e) {
+        if let Expr::BVSymbol { name, width } = &ctx[s] {
+            acc.insert((ctx[*name].to_string(), *width), s);
+        }
+    }
+}
+
+fn bv_of_u64(v: u64, w: WidthInt) -> BitVecValue {
+    BitVecValue::from_u64(v, w)
+}
+
+/// value tuples for the symbols: exhaustive when the total number of bits is at most `exh_bits`
+fn value_tuples(rng: &mut Rng, widths: &[WidthInt], exh_bits: u32, n_samples: usize) -> (bool, Vec<Vec<BitVecValue>>) {
+    let total: u32 = widths.iter().sum();
+    if total <= exh_bits {
+        let mut out = vec![];
+        for k in 0..(1u64 << total) {
+            let mut rest = k;
+            let mut t = vec![];
+            for w in widths {
+                t.push(bv_of_u64(rest & ((1u64 << w) - 1), *w));
+                rest >>= w;
+            }
+            out.push(t);
+        }
+        (true, out)
+    } else {
+        let mut out: Vec<Vec<BitVecValue>> = vec![];
+        // corners first: all zero, all ones, msb only, one
+        out.push(widths.iter().map(|w| BitVecValue::zero(*w)).collect());
+        out.push(widths.iter().map(|w| BitVecValue::ones(*w)).collect());
+        out.push(
+            widths
+                .iter()
+                .map(|w| {
+                    let mut b = vec![b'0'; *w as usize];
+                    b[0] = b'1';
+                    BitVecValue::from_bit_str(std::str::from_utf8(&b).unwrap()).unwrap()
+                })
+                .collect(),
+        );
+        out.push(widths.iter().map(|w| bv_of_u64(1, *w)).collect());
+        while out.len() < n_samples {
+            out.push(widths.iter().map(|w| lit_value(rng, *w)).collect());
+        }
+        (false, out)
+    }
+}
+
+fn eval_txt(ctx: &Context, pairs: &[(ExprRef, BitVecValue)], e: Option<ExprRef>) -> String {
+    match e {
+        None => "x".into(),
+        Some(e) => match guarded(|| eval_expr(ctx, pairs, e)) {
+            Ok(Value::BitVec(v)) => bv_tok(&v),
+            Ok(_) => "array".into(),
+            Err(_) => "panic".into(),
+        },
+    }
+}
+
+struct InstOpts {
+    exh_bits: u32,
+    samples_true: usize,
+    samples_false: usize,
+    /// widths above this are lowered but not evaluated
+    eval_max_width: WidthInt,
+}
+
+fn inst_case(id: &str, r: &ArithRewrite, a: &Asg, fixed_vals: Option<&[Sexp]>, opts: &InstOpts, rng: &mut Rng, stats: &mut Stats) -> String {
+    let (lp, rp) = r.patterns();
+    let lhs = instantiate(lp, a);
+    let rhs = instantiate(rp, a);
+    let cond = cond_txt(r, a);
+    let mut ctx = Context::default();
+    let el = guarded(|| from_arith(&mut ctx, &lhs));
+    let loc_l = if el.is_err() { last_panic_loc() } else { String::new() };
+    let er = guarded(|| from_arith(&mut ctx, &rhs));
+    let loc_r = if er.is_err() { last_panic_loc() } else { String::new() };
+    let show = |ctx: &Context, e: &Result<ExprRef, String>| match e {
+        Ok(e) => dump_expr(ctx, *e),
+        Err(_) => "(panic)".to_string(),
+    };
+    let mut syms = BTreeMap::new();
+    for e in [&el, &er] {
+        if let Ok(e) = e {
+            collect_syms(&ctx, *e, &mut syms);
+        }
+    }
+    let sym_list: Vec<((String, WidthInt), ExprRef)> = syms.into_iter().collect();
+    let widths: Vec<WidthInt> = sym_list.iter().map(|((_, w), _)| *w).collect();
+    let max_w = {
+        let mut m = widths.iter().copied().max().unwrap_or(0);
+        for e in [&el, &er] {
+            if let Ok(e) = e {
+                for n in crate::exprgen::collect_nodes(&ctx, *e) {
+                    if let Some(w) = n.get_bv_type(&ctx) {
+                        m = m.max(w);
+                    }
+                }
+            }
+        }
+        m
+    };
+    let (exhaustive, tuples): (bool, Vec<Vec<BitVecValue>>) = if let Some(vs) = fixed_vals {
+        (false, vs.iter().map(|t| t.list()[..widths.len()].iter().map(|x| x.bits()).collect()).collect())
+    } else if max_w > opts.eval_max_width || sym_list.is_empty() {
+        (false, vec![])
+    } else {
+        let n = if cond == "true" { opts.samples_true } else { opts.samples_false };
+        let exh = if cond == "true" { opts.exh_bits } else { opts.exh_bits.min(6) };
+        value_tuples(rng, &widths, exh, n)
+    };
+    let mut vals = String::new();
+    let mut differ = false;
+    for t in tuples.iter() {
+        let pairs: Vec<(ExprRef, BitVecValue)> = sym_list.iter().zip(t.iter()).map(|((_, s), v)| (*s, v.clone())).collect();
+        let l = eval_txt(&ctx, &pairs, el.as_ref().ok().copied());
+        let rr = eval_txt(&ctx, &pairs, er.as_ref().ok().copied());
+        if l != rr {
+            differ = true;
+        }
+        vals.push_str(" (");
+        for v in t {
+            vals.push_str(&bv_tok(v));
+            vals.push(' ');
+        }
+        vals.push_str(&format!("{l} {rr})"));
+    }
+    stats.bump("inst_rule_cond", &format!("{}:{}", r.name(), cond));
+    if cond == "false" {
+        stats.bump("inst_cond_false_sides", if differ { "differ-on-some-value" } else { "agree-on-all-tried-values" });
+    }
+    stats.bump("inst_values", if tuples.is_empty() { "lowered-only" } else if exhaustive { "exhaustive" } else { "sampled" });
+    stats.add("inst_value_tuples", tuples.len() as u64);
+    stats.bump("inst_max_width", &width_bucket(max_w));
+    let syms_txt: String = sym_list.iter().map(|((n, w), _)| format!(" ({} {})", quote(n), w)).collect();
+    format!(
+        "(case {id} (kind inst) (rule {}) (assign{}) (lhs {}) (rhs {}) (cond {cond}) (impl_lhs {}) (impl_rhs {}) (syms{syms_txt}) (exhaustive {}) (vals{vals}) (panicloc {} {}))",
+        quote(r.name()),
+        asg_txt(a),
+        dump_arith(&lhs),
+        dump_arith(&rhs),
+        show(&ctx, &el),
+        show(&ctx, &er),
+        exhaustive as u8,
+        quote(&loc_l),
+        quote(&loc_r)
+    )
+}
+
+fn width_bucket(w: WidthInt) -> String {
+    match w {
+        0..=8 => format!("{w}"),
+        9..=16 => "9-16".into(),
+        17..=32 => "17-32".into(),
+        33..=64 => "33-64".into(),
+        65..=128 => "65-128".into(),
+        129..=4096 => "129-4096".into(),
+        _ => ">4096".into(),
+    }
+}
+
+/// all assignments with every width in 1..=bound and both signs (samples.rs: get_assignment)
+fn all_assignments(rv: &RuleVars, bound: WidthInt) -> Vec<Asg> {
+    let nw = rv.widths.len() as u32;
+    let ns = rv.signs.len() as u32;
+    let total = (bound as u64).pow(nw) * 2u64.pow(ns);
+    let mut out = Vec::with_capacity(total as usize);
+    for mut idx in 0..total {
+        let mut a: Asg = vec![];
+        for w in rv.widths.iter() {
+            a.push((w.clone(), (idx % bound as u64) as WidthInt + 1));
+            idx /= bound as u64;
+        }
+        for s in rv.signs.iter() {
+            a.push((s.clone(), (idx % 2) as WidthInt));
+            idx /= 2;
+        }
+        out.push(a);
+    }
+    out
+}
+
+fn set(a: &mut Asg, k: &str, v: WidthInt) {
+    for (n, x) in a.iter_mut() {
+        if n == k {
+            *x = v;
+        }
+    }
+}
+
+fn get(a: &Asg, k: &str) -> WidthInt {
+    a.iter().find(|(n, _)| n == k).map(|(_, v)| *v).unwrap_or(0)
+}
+
+/// a random assignment with widths up to `maxw`, pushed towards satisfying the rule's side condition
+fn directed_assignment(rng: &mut Rng, r: &ArithRewrite, rv: &RuleVars, maxw: WidthInt) -> Asg {
+    let pick = |rng: &mut Rng, hi: WidthInt| -> WidthInt {
+        let hi = hi.max(1);
+        match rng.below(4) {
+            0 => rng.range(1, (hi as u64).min(4)) as WidthInt,
+            1 => rng.range(1, (hi as u64).min(8)) as WidthInt,
+            _ => rng.range(1, hi as u64) as WidthInt,
+        }
+    };
+    let mut a: Asg = vec![];
+    for w in rv.widths.iter() {
+        a.push((w.clone(), pick(rng, maxw)));
+    }
+    for s in rv.signs.iter() {
+        a.push((s.clone(), rng.below(2) as WidthInt));
+    }
+    let want_true = rng.chance(5, 6);
+    match r.name() {
+        "merge-left-shift" => {
+            // shift amounts are values: keep their widths small enough for the result to stay evaluable
+            set(&mut a, "?wb", rng.range(1, 7) as WidthInt);
+            set(&mut a, "?wc", rng.range(1, 7) as WidthInt);
+            if want_true {
+                let wo = get(&a, "?wo");
+                set(&mut a, "?wab", wo + rng.below(1 + (maxw as u64).saturating_sub(wo as u64).min(9)) as WidthInt);
+            }
+        }
+        "unmerge-left-shift" => {
+            let wb = rng.range(1, 6) as WidthInt;
+            let wc = rng.range(1, 6) as WidthInt;
+            set(&mut a, "?wb", wb);
+            set(&mut a, "?wc", wc);
+            if want_true {
+                set(&mut a, "?wbc", wb.max(wc) + 1 + rng.below(4) as WidthInt);
+            } else {
+                set(&mut a, "?wbc", rng.range(1, 8) as WidthInt);
+            }
+        }
+        "left-shift-mult" => {
+            let wc = rng.range(1, 5) as WidthInt;
+            let wa = rng.range(1, (maxw as u64 / 3).max(1)) as WidthInt;
+            let wb = rng.range(1, (maxw as u64 / 3).max(1)) as WidthInt;
+            set(&mut a, "?wc", wc);
+            set(&mut a, "?wa", wa);
+            set(&mut a, "?wb", wb);
+            if want_true {
+                let wab = wa + wb + rng.below(3) as WidthInt;
+                set(&mut a, "?wab", wab);
+                set(&mut a, "?wo", wab + (1 << wc) - 1 + rng.below(3) as WidthInt);
+            }
+        }
+        "mult-to-add" => {
+            if rng.chance(1, 3) {
+                set(&mut a, "?wb", rng.range(1, 3) as WidthInt);
+            }
+        }
+        _ => {}
+    }
+    a
+}
+
+/// assignments at the edge of `u32`: the terms are lowered (never evaluated)
+fn extreme_assignments(r: &ArithRewrite, rv: &RuleVars, rng: &mut Rng, n: usize) -> Vec<Asg> {
+    let pool: [WidthInt; 10] = [1, 2, 31, 32, 33, 64, 1 << 16, (1u32 << 31) - 1, u32::MAX - 1, u32::MAX];
+    let mut out = vec![];
+    for _ in 0..n {
+        let mut a: Asg = vec![];
+        for w in rv.widths.iter() {
+            let mut v = *rng.pick(&pool);
+            // the constant 2 of mult-to-add is materialised as a literal of ?wb bits: keep that allocation small
+            if r.name() == "mult-to-add" && w == "?wb" {
+                v = v.min(1 << 16);
+            }
+            a.push((w.clone(), v));
+        }
+        for s in rv.signs.iter() {
+            a.push((s.clone(), rng.below(2) as WidthInt));
+        }
+        out.push(a);
+    }
+    out
+}
+
+// ------------------------------------------------------------------------------------------ round trip
+
+const RT_WIDTHS: &[WidthInt] = &[1, 1, 2, 2, 3, 4, 5, 6, 7, 8, 8, 16, 31, 32, 33, 63, 64, 65, 127, 128];
+
+struct RtGen<'a> {
+    ctx: &'a mut Context,
+    rng: &'a mut Rng,
+    feat: Vec<String>,
+}
+
+impl<'a> RtGen<'a> {
+    fn sym(&mut self, w: WidthInt) -> ExprRef {
+        let names = ["x", "y", "z", "u"];
+        let n = *self.rng.pick(&names);
+        self.ctx.bv_symbol(n, w)
+    }
+    /// a non-extension expression of width w
+    fn core(&mut self, w: WidthInt, depth: u32, outside: bool) -> ExprRef {
+        self.core_at(w, depth, outside, false)
+    }
+    fn core_at(&mut self, w: WidthInt, depth: u32, outside: bool, root: bool) -> ExprRef {
+        if depth == 0 || (!root && self.rng.chance(1, 4)) {
+            if outside && self.rng.chance(1, 3) {
+                self.feat.push("literal-leaf".into());
+                let v = lit_value(self.rng, w);
+                return self.ctx.bv_lit(&v);
+            }
+            return self.sym(w);
+        }
+        if outside && self.rng.chance(1, 6) {
+            self.feat.push("other-op".into());
+            let a = self.core(w, depth - 1, false);
+            return match self.rng.below(3) {
+                0 => self.ctx.not(a),
+                1 => self.ctx.negate(a),
+                _ => {
+                    let b = self.sym(w);
+                    self.ctx.and(a, b)
+                }
+            };
+        }
+        let a = self.operand(w, depth - 1, outside);
+        let b = self.operand(w, depth - 1, outside);
+        let op = self.rng.below(6);
+        // baa cannot multiply above 128 bits (todo!): stay below
+        let op = if op == 2 && w > 128 { 0 } else { op };
+        self.feat.push(["add", "sub", "mul", "shl", "lshr", "ashr"][op as usize].into());
+        match op {
+            0 => self.ctx.add(a, b),
+            1 => self.ctx.sub(a, b),
+            2 => self.ctx.mul(a, b),
+            3 => self.ctx.shift_left(a, b),
+            4 => self.ctx.shift_right(a, b),
+            _ => self.ctx.arithmetic_shift_right(a, b),
+        }
+    }
+    fn ext(&mut self, e: ExprRef, by: WidthInt, signed: bool) -> ExprRef {
+        if signed { self.ctx.sign_extend(e, by) } else { self.ctx.zero_extend(e, by) }
+    }
+    /// an operand of width w: a core expression under 0, 1, 2 or 3 extensions
+    fn operand(&mut self, w: WidthInt, depth: u32, outside: bool) -> ExprRef {
+        let n_ext = if w == 1 {
+            0
+        } else {
+            match self.rng.below(20) {
+                0..=5 => 0,
+                6..=13 => 1,
+                14..=17 => 2,
+                _ => 3,
+            }
+        };
+        let n_ext = n_ext.min(w - 1);
+        if n_ext == 0 {
+            self.feat.push("ext0".into());
+            return self.core(w, depth, outside);
+        }
+        // split w into a base width and n_ext positive increments
+        let mut cuts: Vec<WidthInt> = vec![];
+        let mut left = w;
+        for k in 0..n_ext {
+            let max_by = left - 1 - (n_ext - 1 - k);
+            let by = if self.rng.chance(1, 2) { 1 } else { self.rng.range(1, max_by as u64) as WidthInt };
+            cuts.push(by);
+            left -= by;
+        }
+        let base = self.core(left, depth, outside);
+        let kinds: Vec<bool> = match self.rng.below(3) {
+            0 => vec![false; n_ext as usize],
+            1 => vec![true; n_ext as usize],
+            _ => (0..n_ext).map(|_| self.rng.chance(1, 2)).collect(),
+        };
+        let uniform = kinds.iter().all(|k| *k == kinds[0]);
+        self.feat.push(format!("ext{}{}", n_ext, if n_ext == 1 { "" } else if uniform { "-uniform" } else { "-mixed" }));
+        let mut e = base;
+        // innermost extension first; cuts were drawn outermost first
+        for (k, by) in cuts.iter().rev().enumerate() {
+            e = self.ext(e, *by, kinds[k]);
+        }
+        e
+    }
+}
+
+fn gen_roundtrip(rng: &mut Rng, stats: &mut Stats, small: bool) -> (Context, ExprRef) {
+    let mut ctx = Context::default();
+    let w = if small { rng.range(1, 6) as WidthInt } else { *rng.pick(RT_WIDTHS) };
+    let depth = 1 + rng.below(3) as u32;
+    let shape = rng.below(40);
+    let mut g = RtGen { ctx: &mut ctx, rng, feat: vec![] };
+    let root = match shape {
+        0 => {
+            g.feat.push("root-symbol".into());
+            g.sym(w)
+        }
+        1 => {
+            g.feat.push("root-extension".into());
+            let inner = g.core(w, depth, false);
+            g.ext(inner, 2, shape % 2 == 0)
+        }
+        2 | 3 => g.core_at(w, depth, true, true),
+        _ => g.core_at(w, depth, false, true),
+    };
+    for f in g.feat.iter() {
+        stats.bump("roundtrip_features", f);
+    }
+    (ctx, root)
+}
+
+fn roundtrip_case(id: &str, ctx: &mut Context, root: ExprRef, fixed_vals: Option<&[Sexp]>, rng: &mut Rng, stats: &mut Stats) -> String {
+    let ar = guarded(|| to_arith(ctx, root));
+    let loc_a = if ar.is_err() { last_panic_loc() } else { String::new() };
+    let back: Result<ExprRef, String> = match &ar {
+        Ok(t) => guarded(|| from_arith(ctx, t)),
+        Err(m) => Err(m.clone()),
+    };
+    let loc_b = if ar.is_ok() && back.is_err() { last_panic_loc() } else { String::new() };
+    let mut syms = BTreeMap::new();
+    collect_syms(ctx, root, &mut syms);
+    if let Ok(b) = &back {
+        collect_syms(ctx, *b, &mut syms);
+    }
+    let sym_list: Vec<((String, WidthInt), ExprRef)> = syms.into_iter().collect();
+    let widths: Vec<WidthInt> = sym_list.iter().map(|((_, w), _)| *w).collect();
+    let tuples: Vec<Vec<BitVecValue>> = if let Some(vs) = fixed_vals {
+        vs.iter().map(|t| t.list()[..widths.len()].iter().map(|x| x.bits()).collect()).collect()
+    } else if back.is_err() {
+        vec![]
+    } else {
+        value_tuples(rng, &widths, 8, 12).1
+    };
+    let mut vals = String::new();
+    for t in tuples.iter() {
+        let pairs: Vec<(ExprRef, BitVecValue)> = sym_list.iter().zip(t.iter()).map(|((_, s), v)| (*s, v.clone())).collect();
+        let l = eval_txt(ctx, &pairs, Some(root));
+        let r = eval_txt(ctx, &pairs, back.as_ref().ok().copied());
+        vals.push_str(" (");
+        for v in t {
+            vals.push_str(&bv_tok(v));
+            vals.push(' ');
+        }
+        vals.push_str(&format!("{l} {r})"));
+    }
+    stats.bump("roundtrip_outcome", match (&ar, &back) {
+        (Err(_), _) => "to_arith-panics",
+        (Ok(_), Err(_)) => "from_arith-panics",
+        (Ok(_), Ok(b)) if *b == root => "same-expression",
+        _ => "different-expression",
+    });
+    stats.bump("roundtrip_root_width", &width_bucket(root.get_bv_type(ctx).unwrap_or(0)));
+    let syms_txt: String = sym_list.iter().map(|((n, w), _)| format!(" ({} {})", quote(n), w)).collect();
+    format!(
+        "(case {id} (kind roundtrip) (expr {}) (impl_arith {}) (impl_back {}) (same_ref {}) (syms{syms_txt}) (vals{vals}) (panicloc {} {}))",
+        dump_expr(ctx, root),
+        match &ar {
+            Ok(t) => dump_arith(t),
+            Err(_) => "(panic)".into(),
+        },
+        match &back {
+            Ok(b) => dump_expr(ctx, *b),
+            Err(_) => "(panic)".into(),
+        },
+        matches!(&back, Ok(b) if *b == root) as u8,
+        quote(&loc_a),
+        quote(&loc_b)
+    )
+}
+
+// ------------------------------------------------------------------------------------------ lower
+
+fn lower_case(id: &str, t: &RecExpr<Arith>, stats: &mut Stats) -> String {
+    let mut ctx = Context::default();
+    let r = guarded(|| from_arith(&mut ctx, t));
+    let loc = if r.is_err() { last_panic_loc() } else { String::new() };
+    stats.bump("lower_outcome", if r.is_ok() { "ok" } else { "panic" });
+    format!(
+        "(case {id} (kind lower) (arith {}) (impl {}) (panicloc {}))",
+        dump_arith(t),
+        match &r {
+            Ok(e) => dump_expr(&ctx, *e),
+            Err(_) => "(panic)".into(),
+        },
+        quote(&loc)
+    )
+}
+
+/// random, mostly ill-shaped ground terms: any node kind in any child position
+/// value of a width term if it is one (mirror of get_width, used only to steer the generator away from
+/// literals of absurd widths)
+fn wild_width(nodes: &[Arith], i: usize) -> Option<u64> {
+    match &nodes[i] {
+        Arith::Width(w) => {
+            let w: WidthInt = (*w).into();
+            Some(w as u64)
+        }
+        Arith::WidthMaxPlus1([a, b]) => Some(wild_width(nodes, usize::from(*a))?.max(wild_width(nodes, usize::from(*b))?) + 1),
+        Arith::WidthLeftShift([a, b]) => {
+            let (a, b) = (wild_width(nodes, usize::from(*a))?, wild_width(nodes, usize::from(*b))?);
+            if b >= 32 { Some(u32::MAX as u64) } else { Some(a + (1u64 << b) - 1) }
+        }
+        _ => None,
+    }
+}
+
+fn gen_wild(rng: &mut Rng, out: &mut RecExpr<Arith>, depth: u32, pos: usize) -> Id {
+    gen_wild_w(rng, out, depth, pos, true, None)
+}
+
+/// `want`: the width the parent declares for this operand (a nested operation usually gets it as its
+/// output width, otherwise the debug assertion in `extend` fires and nothing deeper is exercised)
+fn gen_wild_w(rng: &mut Rng, out: &mut RecExpr<Arith>, depth: u32, pos: usize, allow_const: bool, want: Option<u64>) -> Id {
+    // pos: 0 width position, 1 sign position, 2 operand position
+    let well = rng.chance(11, 12);
+    let kind = if well {
+        match pos {
+            0 => {
+                if depth > 0 && rng.chance(1, 4) { 10 + rng.below(2) } else { 0 }
+            }
+            1 => 1,
+            _ => {
+                if depth > 0 && rng.chance(1, 2) { 20 } else if rng.chance(1, 6) { 2 } else { 3 }
+            }
+        }
+    } else {
+        *rng.pick(&[0u64, 1, 2, 3, 10, 11, 20])
+    };
+    let kind = if kind == 2 && !allow_const { 3 } else { kind };
+    let widths: [WidthInt; 12] = [0, 1, 1, 2, 2, 3, 3, 5, 8, 32, 32, 33];
+    match kind {
+        0 => out.add(Arith::from(*rng.pick(&widths))),
+        1 => out.add(Arith::Sign(if rng.chance(1, 2) { Sign::Signed } else { Sign::Unsigned })),
+        2 => out.add(Arith::Const(*rng.pick(&[0u64, 1, 2, 3, 255, 1 << 32, u64::MAX]))),
+        3 => out.add(Arith::Symbol((*rng.pick(&["a", "b", "c"])).to_string())),
+        10 | 11 => {
+            let a = gen_wild(rng, out, depth.saturating_sub(1), 0);
+            let b = gen_wild(rng, out, depth.saturating_sub(1), 0);
+            out.add(if kind == 10 { Arith::WidthMaxPlus1([a, b]) } else { Arith::WidthLeftShift([a, b]) })
+        }
+        _ => {
+            let d = depth.saturating_sub(1);
+            let c0 = match want {
+                Some(w) if w <= u32::MAX as u64 && rng.chance(9, 10) => out.add(Arith::from(w as WidthInt)),
+                _ => gen_wild(rng, out, d, 0),
+            };
+            let c1 = gen_wild(rng, out, d, 0);
+            let c2 = gen_wild(rng, out, d, 1);
+            let wa = wild_width(out.as_ref(), usize::from(c1));
+            let small_a = wa.map(|w| w <= 4096).unwrap_or(true);
+            let c3 = gen_wild_w(rng, out, d, 2, small_a, wa);
+            let c4 = gen_wild(rng, out, d, 0);
+            let c5 = gen_wild(rng, out, d, 1);
+            let wb = wild_width(out.as_ref(), usize::from(c4));
+            let small_b = wb.map(|w| w <= 4096).unwrap_or(true);
+            let c6 = gen_wild_w(rng, out, d, 2, small_b, wb);
+            let c = [c0, c1, c2, c3, c4, c5, c6];
+            out.add(match rng.below(6) {
+                0 => Arith::Add(c),
+                1 => Arith::Sub(c),
+                2 => Arith::Mul(c),
+                3 => Arith::LeftShift(c),
+                4 => Arith::RightShift(c),
+                _ => Arith::ArithmeticRightShift(c),
+            })
+        }
+    }
+}
+
+// ------------------------------------------------------------------------------------------ driver
+
+fn replay_case(c: &Sexp, rng: &mut Rng, stats: &mut Stats) -> String {
+    let id = c.list()[1].atom().to_string();
+    let kind = c.field("kind").map(|k| k[0].atom().to_string()).unwrap_or_default();
+    let rules = create_rewrites();
+    let find = |name: &str| rules.iter().find(|r| r.name() == name);
+    match kind.as_str() {
+        "table" => table_case(&id),
+        "cond" => {
+            let name = c.field("rule").unwrap()[0].atom();
+            let a = parse_asg(c.field("assign").unwrap());
+            match find(name) {
+                Some(r) => cond_case(&id, r, &a),
+                None => format!("(case {id} (kind cond) (rule {}) (assign{}) (impl (norule)))", quote(name), asg_txt(&a)),
+            }
+        }
+        "inst" => {
+            let name = c.field("rule").unwrap()[0].atom();
+            let a = parse_asg(c.field("assign").unwrap());
+            // with a (vals ..) field: exactly those operand tuples; without: fresh samples (used by the search
+            // that turns diverging side-condition cases into evaluated instances)
+            let opts = InstOpts { exh_bits: 10, samples_true: 48, samples_false: 8, eval_max_width: 4096 };
+            match find(name) {
+                Some(r) => inst_case(&id, r, &a, c.field("vals"), &opts, rng, stats),
+                None => format!("(case {id} (kind inst) (rule {}) (assign{}) (norule))", quote(name), asg_txt(&a)),
+            }
+        }
+        "roundtrip" => {
+            let mut ctx = Context::default();
+            let root = build_expr(&mut ctx, &c.field("expr").unwrap()[0]);
+            roundtrip_case(&id, &mut ctx, root, Some(c.field("vals").unwrap_or(&[])), rng, stats)
+        }
+        "lower" => {
+            let mut t = RecExpr::default();
+            build_arith(&c.field("arith").unwrap()[0], &mut t);
+            lower_case(&id, &t, stats)
+        }
+        other => panic!("unknown case kind {other}"),
+    }
+}
+
+pub fn run(args: &Args) {
+    let mut rng = Rng::new(args.seed);
+    let mut out = std::io::BufWriter::new(std::fs::File::create(&args.out).expect("out file"));
+    let mut stats = Stats::default();
+    let mut distinct: HashSet<String> = HashSet::new();
+    let mut emit = |line: String, stats: &mut Stats, out: &mut std::io::BufWriter<std::fs::File>| {
+        // distinct inputs: the line without its id
+        let key = line.splitn(3, ' ').nth(2).unwrap_or("").to_string();
+        let kind = key.split(')').next().unwrap_or("").trim_start_matches("(kind ").to_string();
+        stats.bump("kind", &kind);
+        if distinct.insert(key) {
+            stats.inc("distinct_cases");
+        }
+        stats.sample(&line, 4);
+        writeln!(out, "{line}").unwrap();
+    };
+    if let Some(path) = args.get("cases-in") {
+        for c in read_cases(path).iter() {
+            let line = replay_case(c, &mut rng.fork(), &mut stats);
+            emit(line, &mut stats, &mut out);
+        }
+        stats.write(&args.out);
+        return;
+    }
+    let mode = args.get("mode").unwrap_or("table").to_string();
+    let rules = create_rewrites();
+    let mut next_id = 0u64;
+    let mut id = |p: &str| {
+        next_id += 1;
+        format!("{p}{}", next_id - 1)
+    };
+    match mode.as_str() {
+        "table" => emit(table_case(&id("t")), &mut stats, &mut out),
+        "cond" => {
+            let bound = args.get_u64("bound", 6) as WidthInt;
+            for r in rules.iter() {
+                let rv = rule_vars(r);
+                for a in all_assignments(&rv, bound) {
+                    let line = cond_case(&id("c"), r, &a);
+                    stats.bump("cond_rule_result", &format!("{}:{}", r.name(), &line[line.rfind("(impl ").unwrap() + 6..line.len() - 2]));
+                    emit(line, &mut stats, &mut out);
+                }
+                for a in extreme_assignments(r, &rv, &mut rng, args.get_u64("extreme", 40) as usize) {
+                    let line = cond_case(&id("cx"), r, &a);
+                    stats.bump("cond_extreme_result", &format!("{}:{}", r.name(), &line[line.rfind("(impl ").unwrap() + 6..line.len() - 2]));
+                    emit(line, &mut stats, &mut out);
+                }
+                // widths of every magnitude (log-uniform up to u32::MAX): the closure is only evaluated, nothing is lowered
+                for _ in 0..args.get_u64("random", 2000) {
+                    let mut a: Asg = vec![];
+                    for w in rv.widths.iter() {
+                        let bits = rng.range(1, 32);
+                        let v = (rng.next_u64() & ((1u64 << bits) - 1)).max(1) as WidthInt;
+                        a.push((w.clone(), v));
+                    }
+                    // related widths are more interesting than independent ones: copy / offset a few
+                    if a.len() >= 2 && rng.chance(1, 2) {
+                        let i = rng.below(a.len() as u64) as usize;
+                        let j = rng.below(a.len() as u64) as usize;
+                        let d = rng.below(5) as i64 - 2;
+                        a[i].1 = (a[j].1 as i64 + d).clamp(1, u32::MAX as i64) as WidthInt;
+                    }
+                    for s in rv.signs.iter() {
+                        a.push((s.clone(), rng.below(2) as WidthInt));
+                    }
+                    let line = cond_case(&id("cr"), r, &a);
+                    stats.bump("cond_random_result", &format!("{}:{}", r.name(), &line[line.rfind("(impl ").unwrap() + 6..line.len() - 2]));
+                    emit(line, &mut stats, &mut out);
+                }
+            }
+        }
+        "inst" => {
+            let bound = args.get_u64("bound", 4) as WidthInt;
+            let opts = InstOpts {
+                exh_bits: args.get_u64("exh_bits", 12) as u32,
+                samples_true: args.get_u64("samples", 64) as usize,
+                samples_false: args.get_u64("samples_false", 8) as usize,
+                eval_max_width: 4096,
+            };
+            for r in rules.iter() {
+                if let Some(only) = args.get("rule") {
+                    if only != r.name() {
+                        continue;
+                    }
+                }
+                let rv = rule_vars(r);
+                for a in all_assignments(&rv, bound) {
+                    let line = inst_case(&id("i"), r, &a, None, &opts, &mut rng.fork(), &mut stats);
+                    emit(line, &mut stats, &mut out);
+                }
+            }
+        }
+        "sample" => {
+            let maxw = args.get_u64("maxw", 64) as WidthInt;
+            let opts = InstOpts {
+                exh_bits: args.get_u64("exh_bits", 10) as u32,
+                samples_true: args.get_u64("samples", 48) as usize,
+                samples_false: args.get_u64("samples_false", 8) as usize,
+                eval_max_width: 4096,
+            };
+            for k in 0..args.count {
+                let r = &rules[(k % rules.len() as u64) as usize];
+                let rv = rule_vars(r);
+                let mut rr = rng.fork();
+                let a = if k % 16 == 15 { extreme_assignments(r, &rv, &mut rr, 1).pop().unwrap() } else { directed_assignment(&mut rr, r, &rv, maxw) };
+                let line = inst_case(&id("s"), r, &a, None, &opts, &mut rr, &mut stats);
+                emit(line, &mut stats, &mut out);
+            }
+        }
+        "roundtrip" => {
+            for k in 0..args.count {
+                let mut rr = rng.fork();
+                let (mut ctx, root) = gen_roundtrip(&mut rr, &mut stats, k % 3 == 0);
+                let line = roundtrip_case(&id("r"), &mut ctx, root, None, &mut rr, &mut stats);
+                emit(line, &mut stats, &mut out);
+            }
+        }
+        "lower" => {
+            for _ in 0..args.count {
+                let mut rr = rng.fork();
+                let mut t = RecExpr::default();
+                if rr.chance(1, 20) {
+                    gen_wild(&mut rr, &mut t, 2, 2);
+                } else {
+                    // rooted at an operation (kind 20 is forced by a non-zero depth and position 2 most of the time)
+                    let mut tries = 0;
+                    loop {
+                        t = RecExpr::default();
+                        gen_wild(&mut rr, &mut t, 3, 2);
+                        tries += 1;
+                        if is_bin_op(t.as_ref().last().unwrap()) || tries > 8 {
+                            break;
+                        }
+                    }
+                }
+                let line = lower_case(&id("l"), &t, &mut stats);
+                emit(line, &mut stats, &mut out);
+            }
+        }
+        other => {
+            eprintln!("C19: unknown mode {other}");
+            std::process::exit(2);
+        }
+    }
+    stats.write(&args.out);
 }
